@@ -30,6 +30,11 @@ var f13 = []vstmt{
 	{Text: "vars: {v: x; u: ${v}y}", Defs: map[string]string{"v": "x", "u": "${v}y"}},
 	{Text: "c: {vars: {v: inner}}", Scope: "c", Defs: map[string]string{"v": "inner"}},
 	{Text: "c: {vars: {v: inner}; a: ${v}}", Scope: "c", Defs: map[string]string{"v": "inner"}, Twin: "c: {vars: {v: inner}; a: %s}", Uses: []string{"v"}, Tgt: "c.a"},
+	// an inner definition that refers to its own name takes the enclosing scope's value (unquoted and double-quoted)
+	{Text: "c: {vars: {v: ${v}-b}; a: ${v}}", Scope: "c", Defs: map[string]string{"v": "${v}-b"}, Twin: "c: {a: %s}", Uses: []string{"v"}, Tgt: "c.a"},
+	{Text: "c: {vars: {v: \"${v}-b\"}; a: ${v}}", Scope: "c", Defs: map[string]string{"v": "${v}-b"}, Twin: "c: {a: %s}", Uses: []string{"v"}, Tgt: "c.a"},
+	{Text: "c: {vars: {v: \"pre-${v}\"}; a: ${v}; e: \"q ${v}\"}", Scope: "c", Defs: map[string]string{"v": "pre-${v}"}, Twin: "c: {a: %s; e: \"q %s\"}", Uses: []string{"v", "v"}, Tgt: "c.a"},
+	{Text: "c: {e: x}", Twin: "", Tgt: "c.e"},
 	{Text: "c: {a: ${v}}", Scope: "c", Twin: "c: {a: %s}", Uses: []string{"v"}, Tgt: "c.a"},
 	{Text: "c: {b: ${w}}", Scope: "c", Twin: "c: {b: %s}", Uses: []string{"w"}, Tgt: "c.b"},
 	{Text: "c.d: {vars: {v: deep}; e: ${v} ${o}}", Scope: "c.d", Defs: map[string]string{"v": "deep"}, Twin: "c.d: {vars: {v: deep}; e: %s %s}", Uses: []string{"v", "o"}},
@@ -156,6 +161,16 @@ func expand13(lines []string) (twin string, status string) {
 
 // c13Mech: a use of a variable whose value refers to another variable, written before the vars block that defines it.
 func c13Mech(lines []string) string {
+	// a field of c that already exists when the map holding a self-referential inner definition is compiled
+	for i, l := range lines {
+		if strings.Contains(l, "vars: {v: \"pre-${v}\"}") {
+			for _, l2 := range lines[:i] {
+				if l2 == "c: {e: x}" {
+					return "quoted-use-in-a-field-declared-before-the-map-that-redefines-the-variable-from-its-outer-value"
+				}
+			}
+		}
+	}
 	rootOf := func(text string) string {
 		k := strings.IndexAny(text, ":. ")
 		if k < 0 {
